@@ -28,11 +28,11 @@ ASSUMPTIONS = [
 BUDGET = {"quick": 60, "thorough": 500}
 ROUNDS = {"thorough": 10}
 FLOORS = {"loads": {"quick": 1500, "thorough": 15000}, "expected_reject": 400, "expected_accept": 400, "graph_walks": 300,
-          "sharing_updates": 150, "factory_round_trips": 60, "faults": 15, "loads_through_main": 100}
+          "sharing_updates": 150, "factory_round_trips": 60, "faults": 16, "loads_through_main": 100, "reference_identity_checks": {"quick": 2000, "thorough": 20000}}
 
 FAULTS = ["none", "none", "dup-sibling", "dup-cousin", "dup-ancestor", "dup-toplevel", "dup-taxon-parameter", "dangling", "forward",
           "range-missing", "range-ok", "comments", "ignored", "plate", "nested-plate", "ignored-plate",
-          "group", "datatype-dangling", "datatype-ok", "shared-transform-argument"]
+          "group", "datatype-dangling", "datatype-ok", "shared-transform-argument", "shared-hyperparameter"]
 
 
 def cases(tier, seed):
@@ -145,7 +145,7 @@ def parents(top):
 
 
 # ---------------------------------------------------------------- reference interpreter
-REF_SLOTS = {"Alignment": ["datatype", "taxa"], "ViewParameter": ["parameter"], "TransformedParameter": ["x", "parameters"], "CatParameter": ["parameters"], "Distribution": ["x", "parameters"],
+REF_SLOTS = {"BayesianBridge": ["x", "scale", "local_scale", "slab", "alpha"], "Alignment": ["datatype", "taxa"], "ViewParameter": ["parameter"], "TransformedParameter": ["x", "parameters"], "CatParameter": ["parameters"], "Distribution": ["x", "parameters"],
              "JointDistributionModel": ["distributions"], "Taxa": ["taxa"]}
 
 
@@ -487,6 +487,15 @@ def run_case(case):
         else:
             top = top + [taxa, aln, dt]  # defined only later in the file
         effective = top
+    elif fault == "shared-hyperparameter":
+        # hyper-parameters of a shrinkage prior given as references to parameters that their own hyper-priors hold too
+        jt = [d for t in top for d in walk_defs(t) if d["id"] == jid][0]
+        top.insert(0, {"id": "hslab1", "type": "Parameter", "tensor": [2.0]})
+        top.insert(0, {"id": "hlocal1", "type": "Parameter", "tensor": [0.7, 1.4]})
+        jt["distributions"].append({"id": "dslab1", "type": "Distribution", "distribution": "torch.distributions.Normal", "x": "hslab1", "parameters": {"loc": 1.0, "scale": 1.0}})
+        jt["distributions"].append({"id": "bb1", "type": "BayesianBridge", "x": {"id": "xbb1", "type": "Parameter", "tensor": [0.3, -0.6]},
+                                    "scale": {"id": "sbb1", "type": "Parameter", "tensor": [0.9]}, "local_scale": "hlocal1", "slab": "hslab1"})
+        effective = top
     elif fault == "shared-transform-argument":
         # the argument of a parametric transform is a reference to a parameter that something else (its prior) holds too
         jt = [d for t in top for d in walk_defs(t) if d["id"] == jid][0]
@@ -558,6 +567,46 @@ def run_case(case):
             C["sharing_updates"] += 1
             if abs(v1 - v2) > 1e-9 * max(1.0, abs(v2)):
                 V.append(tt.viol("C13:update-not-shared", "after updating %s through the registry the joint is %.12g, a rebuilt specification gives %.12g" % (pid, v1, v2), updated=pid, **detail))
+        # (a') every reference written as a string resolves to the registry instance *inside the object that holds it*
+        def holds(obj, target, depth=0):
+            if obj is target:
+                return True
+            if depth >= 4:
+                return False
+            if isinstance(obj, dict):
+                return any(holds(v, target, depth + 1) for v in obj.values())
+            if isinstance(obj, (list, tuple)):
+                return any(holds(v, target, depth + 1) for v in obj)
+            dd = getattr(obj, "__dict__", None)
+            if isinstance(dd, dict) and type(obj).__module__.startswith(("torchtree", "torch.distributions")):
+                return any(holds(v, target, depth + 1) for k, v in dd.items() if k not in ("listeners", "_model_listeners", "_parameter_listeners"))
+            return False
+
+        for ddef in (x for t in effective for x in walk_defs(t)):
+            if ddef["id"] not in dic or V:
+                continue
+            for slot in REF_SLOTS.get(ddef["type"], []):
+                vals = ddef.get(slot)
+                vals = list(vals.values()) if isinstance(vals, dict) else (vals if isinstance(vals, list) else [vals])
+                for ref in vals:
+                    if isinstance(ref, str) and "{" not in ref and ref in dic and ref != "nucleotide":
+                        C["reference_identity_checks"] = C.get("reference_identity_checks", 0) + 1
+                        if not holds(dic[ddef["id"]], dic[ref]):
+                            V.append(tt.viol("C13:reference-not-the-registry-instance:%s.%s" % (ddef["type"], slot), "%s `%s' refers to `%s' through `%s' but does not hold the registry object of that id (a copy or a snapshot of its value instead)" % (ddef["type"], ddef["id"], ref, slot), **detail))
+                            break
+        if fault == "shared-hyperparameter" and not V:
+            for pid_, newv in (("hslab1", [0.6]), ("hlocal1", [1.9, 0.4])):
+                dic[pid_].tensor = torch.tensor(newv, dtype=dic[pid_].tensor.dtype)
+            v1 = tt.as_np(dic[jid](), "C13:not-a-tensor").sum()
+            rebuilt = copy.deepcopy(effective)
+            for d in (x for t in rebuilt for x in walk_defs(t)):
+                if d["type"] == "Parameter" and "tensor" in d and d["id"] in dic:
+                    d["tensor"] = dic[d["id"]].tensor.detach().tolist()
+            _, dic6 = tt.load(rebuilt)
+            v2 = tt.as_np(dic6[jid](), "C13:not-a-tensor").sum()
+            C["sharing_updates"] += 1
+            if abs(v1 - v2) > 1e-9 * max(1.0, abs(v2)):
+                V.append(tt.viol("C13:update-of-hyperparameter-not-shared", "after updating hslab1 / hlocal1 (held by their hyper-priors and by the bridge bb1) the joint is %.12g, a rebuilt specification gives %.12g" % (v1, v2), **detail))
         if fault == "shared-transform-argument" and not V:
             neww = rng.dirichlet([2.0, 2.0]).round(4)
             dic["pw1"].tensor = torch.tensor(neww, dtype=dic["pw1"].tensor.dtype)
